@@ -23,7 +23,9 @@ var poolStatic = []string{"/", "/a", "/ab", "/abc", "/b", "/a/b", "/a/b/c", "a"}
 var poolNamed = []string{"/{x}", "/{x}/b", "/{x}/bc", "/a/{x}", "/a/{x}/{y}", "/a/{x}/{y}/c", "/a/{x}-{y}", "/a/{x}-{y}.h", "/a{x}", "/{-x}/b", "/a/{-x}/{y}", "/a/{x}/", "/a/{z}/bd", "/{xy}/c", "/a/{xy}/d", "/a/{x}/bc", "{x}.h"}
 var poolRegexp = []string{`/{x:\d+}`, `/a/{x:\d+}`, `/a/{x:\d+}.h`, `/a/{x:\d*}`, `/a/{x}/{y:\d+}`, `/a/{x:[ab]+}/b`, `/a/{-x:\d+}/c`, `/a/{x:\d+}/bc`, `/a/{x:\d}/q`, `/a/{x:\d+}/bd`, `/a/{-x:a|b}/c`, `/a/{x:a|ab}`,
 	// rules with more than one admissible capture before their literal: lazy quantifier, ordered alternation (leftmost-first, never widened)
-	`/{x:.+?}/b`, `/a/{x:a|ab}b`}
+	`/{x:.+?}/b`, `/a/{x:a|ab}b`,
+	// literal text after a regexp parameter in which two routes share the first bytes of a multi-byte character
+	"/a/{x:\\d+}/\u4e2d", "/a/{x:\\d+}/\u4e3d"}
 var poolGreedy = []string{`/{x:.+}/b`}
 var poolIcpt = []string{"/a/{x:digit}", "/a/{x:digit}/b", "/{x:word}/b", "/a/{x:any}", "/a/{-x:digit}/c", "/a/{x:any}bb", "/a/{x:digit}/cd", "/a/{x:digit}/ce", "/a/{x:range}-{y}", "/a/{x:range}-b"}
 var indexBlock = []string{"/c", "/d", "/e", "/f", "/g"}
